@@ -29,7 +29,7 @@ f("blkb-neg", ".blkb -1", "error", "link", (0, "-1"))
 f("repeat-neg", ".repeat -1 { nop }", "error", "link", (0, "-1"))
 f("odd-address", ".byte 1\n.word 5\n.byte 1", "error", "link", (1, None))
 f("reg-as-value", "clr r1+1", "error", "link", (0, "r1"))
-f("angle-oob", ".ascii /a/ <400>", "error", "link", (0, "400"), col="stmt-or-operand")
+f("angle-oob", ".ascii /a/ <400>", "error", "link", (0, "400"))
 f("link-self", ".link .", "error", "link", (0, None), col="stmt-or-operand")
 # ---- compile-time errors ---------------------------------------------------------------------------------------
 f("unknown-insn", "bogus r0", "error", "compile", (0, None))
